@@ -241,6 +241,11 @@ static int new_packet(int sk_fd, int timer_fd)
         return -1;
     }
 
+    if (n < (ssize_t)AVTP_FULL_HEADER_LEN) {
+        fprintf(stderr, "Dropping packet\n");
+        return 0;
+    }
+
     if (!is_valid_packet(cvf)) {
         fprintf(stderr, "Dropping packet\n");
         return 0;
@@ -252,6 +257,12 @@ static int new_packet(int sk_fd, int timer_fd)
     if (res < 0)
         return -1;
 
+    /* The announced NAL must lie within the datagram and fit a queue entry. */
+    if (Avtp_Cvf_GetStreamDataLength(cvf) < AVTP_H264_HEADER_LEN ||
+        get_h264_data_len(cvf) > n - (ssize_t)AVTP_FULL_HEADER_LEN) {
+        fprintf(stderr, "Dropping packet\n");
+        return 0;
+    }
     h264_data_len = get_h264_data_len(cvf);
 
     res = schedule_nal(timer_fd, &tspec, h264Payload, h264_data_len);
